@@ -24,6 +24,7 @@ PINS = {
     # factorization (C02)
     "combine_factorizations": ("factorization", "_combine_factorizations"),
     "monotonic_factorization": ("factorization", "_monotonic_factorization"),
+    "factorize_2d": ("factorization", "factorize_2d"),
     "build_group_sorted_indexer": ("core", "GroupBy._build_group_sorted_indexer_numba"),
     # the reduction front end: observed labels, transform, mean (C01 C07 C11)
     "apply_gb_reduction": ("core", "GroupBy._apply_gb_reduction"),
@@ -65,7 +66,7 @@ PINS = {
 # exactly these properties)
 BY_PROPERTY = {
     "C01": ["group_by_reduce", "apply_group_method_single_chunk", "group_func_wrap", "build_target_for_groupby", "apply_gb_reduction"],
-    "C02": ["combine_factorizations", "monotonic_factorization", "build_group_sorted_indexer"],
+    "C02": ["combine_factorizations", "monotonic_factorization", "factorize_2d", "build_group_sorted_indexer"],
     "C03": ["chunk_groupby_args", "reduce_array_pair", "combine_chunk_results", "apply_across_chunked_keys"],
     "C04": ["group_by_reduce", "apply_group_method_single_chunk", "chunk_groupby_args", "reduce_array_pair", "combine_chunk_results", "group_func_wrap",
             "build_target_for_groupby", "group_mean"],
